@@ -27,6 +27,14 @@ MatCases == {[kind |-> "mat", size |-> n, row |-> r, col |-> c, ok |-> ConstInde
 \* index expression kinds: the index must have integer type (int or uint scalar); a non-constant index is not range-checked
 ITypes == {"int-var", "uint-var", "float-var", "float-literal", "int2-var", "float2-var", "int-big-var"}
 ITypCases == {[kind |-> "ityp", it |-> t, on |-> o, ok |-> t \in {"int-var", "uint-var", "int-big-var"}] : t \in ITypes, o \in {"arr", "vec", "mat"}}
+\* index expressions built with one binary operator from two scalar variables: the index has the operator's result type - the wider
+\* operand type for arithmetic (float > int > uint), int for a comparison - and is accepted exactly if that type is int or uint
+Scalars == {"int", "uint", "float"}
+Rank(t) == CASE t = "float" -> 3 [] t = "int" -> 2 [] t = "uint" -> 1
+Wider(a, b) == IF Rank(a) >= Rank(b) THEN a ELSE b
+BinResult(l, op, r) == IF op \in {"<", "=="} THEN "int" ELSE Wider(l, r)
+IBinCases == {[kind |-> "ibin", l |-> l, op |-> op, r |-> r, on |-> o, ok |-> BinResult(l, op, r) # "float"] :
+                l \in Scalars, r \in Scalars, op \in {"*", "+", "-", "<", "=="}, o \in {"arr", "vec", "mat"}}
 
 Letters == {"x", "y", "z", "w", "r", "g", "b", "a", "q", "s"}
 Masks == UNION {[1..n -> Letters] : n \in 1..MaxMask}
@@ -50,7 +58,7 @@ CompCases == {[kind |-> "comp", rel |-> r, a |-> a, b |-> b, ok |-> AtomOk(a) /\
 BigCases == {[kind |-> "big", on |-> o, hi |-> h, lo |-> l, neg |-> ng, ok |-> FALSE] : o \in {"arr", "arr2", "vec", "matrow", "matcol"}, h \in {1, 2}, l \in {0, 1}, ng \in BOOLEAN}
 
 VARIABLE case
-Init == case \in BigCases \cup ArrCases \cup VecCases \cup MatCases \cup ITypCases \cup MaskCases \cup CompCases
+Init == case \in IBinCases \cup BigCases \cup ArrCases \cup VecCases \cup MatCases \cup ITypCases \cup MaskCases \cup CompCases
 Next == UNCHANGED case
 Spec == Init /\ [][Next]_case
 
